@@ -200,38 +200,102 @@ def correspond(ctx):
                         dis.append(Disagreement('c14.shift', 'shift:snip', f'snip(y+{c}) != snip(y)+{c} by '
                                                 f'{float(np.max(np.abs(b1 - b - c))):.3g} (N={n}, order={order}, hw={hw}, dec={dec}, {kind}, pad={mode})',
                                                 dict(meta, check='shift'), True))
-    # 2-D
+    # 2-D.  (a) the real Baseline2D.tophat/mor/imor against opening2d/mor2d/imorIter2d; (b) the pieces they are made of —
+    # scipy.ndimage.grey_erosion/grey_dilation with the 2-D size `2*half_wind+1` and pybaselines' own `_avg_opening` — against
+    # erode2d/dilate2d/avgOpening2d, also on 1xN / Mx1 / 1x1 arrays (Baseline2D refuses those shapes, the operators and the
+    # theorems do not); (c) np.transpose against the model's `transpose`.  Window pairs are boundary-heavy and mostly UNEQUAL:
+    # h = 1, 2h+1 = axis length (+-1), windows longer than the axis on one or both axes.
+    from scipy.ndimage import grey_dilation, grey_erosion
+    from pybaselines.two_d.morphological import _avg_opening as avg_opening_2d
+
+    def data_2d(m, n, kind):
+        if kind == 'half':
+            return rng.integers(-9, 10, (m, n)) / 2.0
+        if kind == 'plateau':
+            return np.kron(rng.integers(-3, 4, ((m + 1) // 2, (n + 1) // 2)), np.ones((2, 2)))[:m, :n].astype(float)
+        if kind == 'ridge':
+            return (np.add.outer(np.arange(m), 2 * np.arange(n)) + rng.integers(0, 2, (m, n))).astype(float)
+        return rng.integers(-9, 10, (m, n)).astype(float)
+
+    def window_pairs(m, n):
+        edge_r = sorted({1, max(1, (m - 1) // 2), m // 2 + 1, m + 1})       # 2h+1 <= M ... 2h+1 > 2M
+        edge_c = sorted({1, max(1, (n - 1) // 2), n // 2 + 1, n + 1})
+        pairs = [(1, edge_c[-1]), (edge_r[-1], 1), (edge_r[-1], edge_c[-1]), (max(1, (m - 1) // 2), n // 2 + 1),
+                 (max(1, (m - 1) // 2), max(1, (n - 1) // 2)),                 # the largest windows that still fit both axes
+                 (int(rng.integers(1, m + 2)), int(rng.integers(1, n + 2)))]
+        hh = int(rng.integers(1, min(m, n) + 2))
+        pairs.append((hh, hh))                                                 # the equal pair stays covered too
+        out = []
+        for pr in pairs:
+            if pr not in out:
+                out.append(pr)
+        return out
+
+    shapes_real = [(2, 2), (3, 4), (5, 5), (2, 7), (6, 3), (9, 8)] + ([(20, 17)] if ctx.thorough else [])
+    shapes_thin = [(1, 1), (1, 2), (2, 1), (1, 6), (5, 1)]
+    kinds2 = ['int', 'half', 'plateau', 'ridge']
     for _ in range(reps):
-        for (m, n) in [(3, 4), (5, 5), (2, 7), (6, 3), (9, 8)] + ([(20, 17)] if ctx.thorough else []):
+        for (m, n) in shapes_real + shapes_thin:
             fit2 = Baseline2D()
-            for _ in range(2):
-                Y = rng.integers(-9, 10, (m, n)).astype(float)
-                hr, hc = int(rng.integers(1, m + 2)), int(rng.integers(1, n + 2))
+            for (hr, hc) in window_pairs(m, n):
+                kind = kinds2[int(rng.integers(0, len(kinds2)))]
+                Y = data_2d(m, n, kind)
                 c = float(rng.integers(-50, 51))
-                meta = {'method': 'tophat2d', 'shape': [m, n], 'h': [hr, hc], 'Y': Y.tolist(), 'shift': c}
+                size = (2 * hr + 1, 2 * hc + 1)
+                meta = {'method': 'tophat2d', 'shape': [m, n], 'h': [hr, hc], 'kind': kind, 'Y': Y.tolist(), 'shift': c}
+                ctx.count('2d:' + ('unequal' if hr != hc else 'equal'))
+                ctx.count('2d:window' + ('>axis' if (size[0] > m or size[1] > n) else '<=axis'))
+                if size[0] > m and size[1] <= n or size[0] <= m and size[1] > n:
+                    ctx.count('2d:window>one-axis-only')
+                # (b) the operators themselves, every shape
+                ctx.count('2d:ops' + (':thin' if min(m, n) == 1 else ''))
+                add(f'c14.erode2d {hr} {hc} {mat(Y)}', grey_erosion(Y, size), dict(meta, method='erode2d'))
+                add(f'c14.dilate2d {hr} {hc} {mat(Y)}', grey_dilation(Y, size), dict(meta, method='dilate2d'))
+                add(f'c14.avgopening2d {hr} {hc} {mat(Y)}', avg_opening_2d(Y, np.array([hr, hc])), dict(meta, method='avgopening2d'))
+                add(f'c14.transpose {mat(Y)}', Y.T, dict(meta, method='transpose'))
+                if min(m, n) == 1:
+                    ctx.case(('2d-ops', m, n, hr, hc, tuple(Y.ravel().tolist())), nontrivial=bool(np.ptp(Y) > 0))
+                    # the laws on the operators the methods are made of (grey_opening = dilation o erosion)
+                    op = grey_dilation(grey_erosion(Y, size), size)
+                    av = avg_opening_2d(Y, np.array([hr, hc]))
+                    if not (np.all(op <= Y) and np.all(np.minimum(op, av) <= Y)):
+                        dis.append(Disagreement('c14.le', 'le:ops2d', f'2-D opening / mor of a {m}x{n} array exceeds the data',
+                                                dict(meta, method='ops2d', check='le'), True))
+                    if not np.array_equal(grey_dilation(grey_erosion(op, size), size), op):
+                        dis.append(Disagreement('c14.idem', 'idem:ops2d', f'2-D opening of a {m}x{n} array is not idempotent',
+                                                dict(meta, method='ops2d', check='idem'), True))
+                    if not np.array_equal(grey_dilation(grey_erosion(Y + c, size), size), op + c):
+                        dis.append(Disagreement('c14.shift', 'shift:ops2d', f'2-D opening of a {m}x{n} array does not commute with a shift',
+                                                dict(meta, method='ops2d', check='shift'), True))
+                    continue
+                # (a) the real methods
                 try:
                     bt = fit2.tophat(Y, half_window=(hr, hc))[0]
                     bm = fit2.mor(Y, half_window=(hr, hc))[0]
-                    k = int(rng.integers(1, 3))
+                    k = int(rng.integers(1, 4))
                     bi = fit2.imor(Y, half_window=(hr, hc), tol=-1, max_iter=k - 1)[0]
+                    bi_def = fit2.imor(Y, half_window=(hr, hc))[0]
                 except Exception as e:
                     dis.append(Disagreement('c14.raises', f'raises2d:{type(e).__name__}', f'2-D morphological call raised {e}', meta, True))
                     continue
-                ctx.case(('2d', m, n, hr, hc, tuple(Y.ravel().tolist())), nontrivial=True,
-                         sample={'method': '2-D tophat/mor/imor', 'shape': [m, n], 'half_window': [hr, hc]} if (m, n) == (5, 5) else None)
+                ctx.case(('2d', m, n, hr, hc, tuple(Y.ravel().tolist())), nontrivial=bool(np.ptp(Y) > 0),
+                         sample={'method': '2-D tophat/mor/imor', 'shape': [m, n], 'half_window': [hr, hc], 'data': kind}
+                         if (m, n) == (5, 5) else None)
                 ctx.count('2d')
                 add(f'c14.tophat2d {hr} {hc} {mat(Y)}', bt, dict(meta, method='tophat2d'))
                 add(f'c14.mor2d {hr} {hc} {mat(Y)}', bm, dict(meta, method='mor2d'))
                 add(f'c14.imor2d {hr} {hc} {k} {mat(Y)}', bi, dict(meta, method='imor2d', k=k))
-                for nm, b in (('tophat2d', bt), ('mor2d', bm), ('imor2d', bi)):
-                    if not np.all(b <= Y):
-                        dis.append(Disagreement('c14.le', f'le:{nm}', f'{nm} exceeds the data', dict(meta, method=nm, check='le'), True))
+                for nm, b in (('tophat2d', bt), ('mor2d', bm), ('imor2d', bi), ('imor2d', bi_def)):
+                    if b.shape != Y.shape or not np.all(b <= Y):
+                        dis.append(Disagreement('c14.le', f'le:{nm}', f'{nm} exceeds the data (shape {m}x{n}, half_window=({hr},{hc}), {kind})',
+                                                dict(meta, method=nm, check='le'), True))
                 if not np.array_equal(fit2.tophat(bt, half_window=(hr, hc))[0], bt):
-                    dis.append(Disagreement('c14.idem', 'idem:tophat2d', '2-D tophat is not idempotent', dict(meta, check='idem'), True))
+                    dis.append(Disagreement('c14.idem', 'idem:tophat2d', f'2-D tophat is not idempotent (shape {m}x{n}, half_window=({hr},{hc}))',
+                                            dict(meta, check='idem'), True))
                 for nm, b0 in (('tophat', bt), ('mor', bm)):
                     if not np.array_equal(getattr(fit2, nm)(Y + c, half_window=(hr, hc))[0], b0 + c):
-                        dis.append(Disagreement('c14.shift', f'shift:{nm}2d', f'2-D {nm} does not commute with a shift',
-                                                dict(meta, method=nm + '2d', check='shift'), True))
+                        dis.append(Disagreement('c14.shift', f'shift:{nm}2d', f'2-D {nm} does not commute with a shift '
+                                                f'(shape {m}x{n}, half_window=({hr},{hc}))', dict(meta, method=nm + '2d', check='shift'), True))
     # rubberband: the returned mask must pass the lower-hull certificate; baseline convex, <= data, touching at vertices
     for _ in range(60 if ctx.thorough else 20):
         n = int(rng.integers(3, 40))
@@ -358,8 +422,11 @@ def correspond(ctx):
                 dis.append(Disagreement('c14.model', 'model:rubberband:interp', 'rubberband baseline differs from the model interpolant through '
                                         f'the returned mask (np.interp(x, x[mask], y[mask]) = hullInterp): {why}', dict(meta, line=ln[:80]), False))
             continue
-        pred = [v for row in parse_mat(r) for v in row]
+        rows = parse_mat(r)
+        pred = [v for row in rows for v in row]
         ok = exact_list(real, pred) if exact else close_list(real, pred)
+        if np.ndim(real) == 2 and [len(row) for row in rows] != [np.shape(real)[1]] * np.shape(real)[0]:
+            ok = False      # same entries in another shape (the model's `transpose` loses ragged / column-less shapes)
         if not ok:
             # is the real code itself violating the property here? evaluated directly above; otherwise model-level
             dis.append(Disagreement('c14.model', f'model:{meta["method"]}', f'{meta["method"]}: implementation differs from the Lean model '
@@ -428,6 +495,23 @@ def replay(ctx, data):
                 if chk == 'cert':
                     return None if cert == '1' else 'the returned mask is not the lower convex hull (certificate rejected)'
                 return interp_mismatch(b[l_:r_], parse_qs(pred), mk[l_:r_], float(np.max(np.abs(y[l_:r_]))))
+        if m == 'ops2d':
+            from scipy.ndimage import grey_dilation, grey_erosion
+            from pybaselines.two_d.morphological import _avg_opening as avg_opening_2d
+            Y = np.array(r['Y'], dtype=float)
+            hr, hc = r['h']
+            size = (2 * hr + 1, 2 * hc + 1)
+            op = grey_dilation(grey_erosion(Y, size), size)
+            if chk == 'le':
+                return None if np.all(op <= Y) and np.all(np.minimum(op, avg_opening_2d(Y, np.array([hr, hc]))) <= Y) else \
+                    '2-D opening / mor exceeds the data'
+            if chk == 'idem':
+                return None if np.array_equal(grey_dilation(grey_erosion(op, size), size), op) else 'not idempotent'
+            if chk == 'shift':
+                return None if np.array_equal(grey_dilation(grey_erosion(Y + r['shift'], size), size), op + r['shift']) else 'shift law fails'
+            return None
+        if m in ('erode2d', 'dilate2d', 'avgopening2d', 'transpose'):
+            return None      # model-level comparison only (no property-level check carries these names)
         if m and m.endswith('2d'):
             Y = np.array(r['Y'])
             fit = Baseline2D()
